@@ -105,10 +105,15 @@ def _allowed(rel, pkg, core):
 
 def _sentinels(root, pkg, core):
     os.makedirs(os.path.join(root, "_specs"), exist_ok=True)
-    files = {"README.md": "user file\n", "setup.cfg": "[x]\n", "notes/todo.txt": "keep\n", "src_other/mod.py": "X = 1\n"}
+    # the user's own modules are deliberately NOT formatter-clean (unused imports, unsorted imports, odd spacing): a post-processing step that
+    # wanders outside the generated packages changes their bytes
+    messy = "import sys,os\nimport json\nY=2\ndef f( a ):\n  return a\n"
+    files = {"README.md": "user file\n", "setup.cfg": "[x]\n", "notes/todo.txt": "keep\n", "src_other/mod.py": messy}
     top = pkg.split(".")[0]
     if "." in pkg:
-        files[os.path.join(top, "handwritten.py")] = "Y = 2\n"  # a user's module in an ancestor package
+        files[os.path.join(top, "handwritten.py")] = messy  # a user's module in an ancestor package
+        files[os.path.join(top, "tools", "__init__.py")] = ""
+        files[os.path.join(top, "tools", "script.py")] = messy  # ... and in a sibling sub-package of the generated one
     for rel, text in files.items():
         p = os.path.join(root, rel)
         os.makedirs(os.path.dirname(p), exist_ok=True)
@@ -203,6 +208,7 @@ def bounded_fault_injection(tier, seed):
                     _sentinels(work, pkg, core)
                     sp = os.path.join(work, "_specs", "s.json")
                     json.dump(d, open(sp, "w"))
+                    pristine = _snapshot(work)  # the user's files before anything was generated
                     os.chdir(work)
                     try:
                         if _gen(sp, work, pkg, core, True, postprocess=True) is not None:
@@ -219,6 +225,10 @@ def bounded_fault_injection(tier, seed):
                     if not force and (changed or e is not None):
                         fail("bounded:noforce-touched:postprocess", f"{name} [{pkg}+{core}] post-processing on, cwd=project root: non-force re-run "
                              f"{'raised ' + type(e).__name__ + ': ' + str(e)[:80] if e is not None else 'changed'} {changed[:6]}", inp)
+                    touched = sorted(k for k in _user_files(pkg) if k in pristine and (after.get(k) or [None])[0] != pristine[k][0])
+                    if touched:
+                        fail(f"bounded:user-file-rewritten:{'force' if force else 'noforce'}:postprocess", f"{name} [{pkg}+{core}] post-processing on: the user's own files were "
+                             f"rewritten: {touched[:6]}", inp)
                     first = sorted(k for k in after if not _allowed(k, pkg, core) and k not in _user_files(pkg))
                     if first:
                         fail(f"bounded:outside-write-set:{'force' if force else 'noforce'}:postprocess", f"{name} [{pkg}+{core}] post-processing on, cwd=project root: "
@@ -236,7 +246,8 @@ def bounded_fault_injection(tier, seed):
 def _user_files(pkg):
     out = {"README.md", "setup.cfg", os.path.join("notes", "todo.txt"), os.path.join("src_other", "mod.py")}
     if "." in pkg:
-        out.add(os.path.join(pkg.split(".")[0], "handwritten.py"))
+        top = pkg.split(".")[0]
+        out |= {os.path.join(top, "handwritten.py"), os.path.join(top, "tools", "__init__.py"), os.path.join(top, "tools", "script.py")}
     return out
 
 
